@@ -204,3 +204,16 @@ def run(repo: Repo, rep: Report, tier: str) -> None:
     from .shared import borrow as _borrow3
     _borrow3(repo, rep, "C06", "C06-R9", "C03-R8", "a comparison that also drives a write enable (or data) is never inlined into an entity and removed: the usage index records the memory write's operands as consumers",
              select=lambda o: "IRMemWrite." in o.construct, floor=2)
+
+    # ---------------- R9 ---------------------------------------------------------------
+    rep.rule("C03-R9", "the gates read their data and their enable from wires only, so a constant that feeds a write must be placed: SignalAnalyzer.analyze exports (record_export) "
+             "IRMemWrite.data_signal and IRMemWrite.write_enable, and exported constants always materialise (C06-R6)")
+    an9 = repo.func("SignalAnalyzer.analyze")
+    c9 = canon(an9)
+    for slot9 in ("data_signal", "write_enable"):
+        ex9 = [k for k in calls_in(an9.node, "record_export") if c9.text(k.args[0]) == f"ELEM(ir_operations).{slot9}"
+               and any(pol and g == "isinstance(ELEM(ir_operations), IRMemWrite)" for g, pol in cguards(an9, k))]
+        rep.check(bool(ex9), "C03-R9", f"a constant used as IRMemWrite.{slot9} is always placed",
+                  "exported in the IRMemWrite branch" if ex9 else
+                  f"IRMemWrite.{slot9} is only recorded as a consumer: an anonymous constant there is treated as inlinable and never placed, so nothing reaches the gate "
+                  + ("(`m.write(5, when=c)` never stores)" if slot9 == "data_signal" else "(an unconditional `m.write(v)` with non-self-referential data never stores: the signal-W = 1 constant is missing)"), an9.loc())
